@@ -79,10 +79,11 @@ def header_receivers(header):
     return out
 
 
-def judge(t, vd, cid, seq, nest):
+def judge(t, vd, cid, seq, nest, warn=False):
     root, objs = build(seq, nest)
-    src = qml.render(root, oneline=True)
-    case = {"id": cid, "source": src, "seq": [list(x) for x in seq], "nest": nest}
+    # warn: the same document with a versioned import (a warning beside whatever else is reported)
+    src = qml.render(root, oneline=True, imports=("qmluic.QtWidgets 6.2",)) if warn else qml.render(root, oneline=True)
+    case = {"id": cid, "source": src, "seq": [list(x) for x in seq], "nest": nest, "warn": warn}
     r = vd.job({"id": cid, "source": src, "modes": ["generate"]})
     if r.get("crashed") or r.get("timeout") or "modes" not in r or \
             r["modes"]["generate"].get("status") == "panic":
@@ -347,6 +348,9 @@ def shard_work(shard, nshards, payload):
         if k % nshards != shard:
             continue
         judge(t, vd, f"names/{k}", seq, nest)
+        ids_ = [i for (_c, i) in seq if i is not None]
+        if len(set(ids_)) != len(ids_) or k % 7 == 0:
+            judge(t, vd, f"names+warning/{k}", seq, nest, warn=True)
         if k % 9001 == 0:
             t.sample({"seq": [list(x) for x in seq], "nest": nest})
     if shard == 0:
@@ -393,7 +397,7 @@ def replay(path):
     if "xref" in case:
         judge_xref(t, vd, case["id"], case["xref"], case["source"])
     elif "seq" in case:
-        judge(t, vd, 0, [tuple(x) for x in case["seq"]], case["nest"])
+        judge(t, vd, 0, [tuple(x) for x in case["seq"]], case["nest"], case.get("warn", False))
     else:
         judge_refs(t, vd)
     vd.close()
